@@ -4,7 +4,7 @@ From MX Require Import Spec.Particle Spec.Deriv Model.AbsSeq Model.AbsSeqC02.
 From Coq Require Import Arith Permutation.
 
 Record mst := mkM { tree : sst; ins : list (nat * positive); next : nat }.
-Inductive mop := MAdd (a:positive) | MRemove (k:nat) | MReplace (k:nat) (a:positive) | MFinal.
+Inductive mop := MAdd (a:positive) | MRemove (k:nat) | MReplace (k:nat) (a:positive) | MReplaceSame (k:nat) | MFinal.
 Inductive mout := MOk | MWrong | MMax | MBadIndex | MOutOfDomain.
 Definition renum (c n:nat) (x:nat*positive) : nat*positive := if Nat.eqb (fst x) c then (n, snd x) else x.
 Fixpoint subst (c n:nat) (s:sst) : sst :=
@@ -22,6 +22,9 @@ Definition mstep (s:mst) (o:mop) : mst * mout :=
   | MReplace k a => match nth_error (ins s) k with
                     | Some (c, b) => if Pos.eqb a b then (mkM (subst c (next s) (tree s)) (map (renum c (next s)) (ins s)) (S (next s)), MOk)
                                      else (bump s, MOutOfDomain)
+                    | None => (bump s, MBadIndex) end
+  | MReplaceSame k => match nth_error (ins s) k with
+                    | Some (c, b) => (mkM (subst c (next s) (tree s)) (map (renum c (next s)) (ins s)) (S (next s)), MOk)
                     | None => (bump s, MBadIndex) end
   | MFinal => (bump s, MOk)
   end.
@@ -87,7 +90,7 @@ Qed.
 Definition MInv (t:stree) (s:mst) : Prop := Inv (tree s) /\ shape (tree s) = t /\ Permutation (ordered (tree s)) (ins s).
 Lemma mstep_inv t s o : MInv t s -> MInv t (fst (mstep s o)).
 Proof.
-  intros (I & Sh & P). destruct o as [a|k|k a|]; simpl.
+  intros (I & Sh & P). destruct o as [a|k|k a|k|]; simpl.
   - destruct (add (next s) a (tree s)) as [t'|] eqn:E; simpl.
     + destruct (add_ok _ _ _ _ E I) as [I' S']. split; [|split]; simpl; auto; try congruence.
       eapply Permutation_trans; [apply ordered_add; eauto|].
@@ -98,6 +101,9 @@ Proof.
     rewrite ordered_remove. apply Permutation_filter'; auto.
   - destruct (nth_error (ins s) k) as [[c b]|]; simpl; [|split; [|split]; auto].
     destruct (Pos.eqb a b); simpl; [|split; [|split]; auto].
+    destruct (subst_ok c (next s) (tree s) I) as (A & B & _). split; [|split]; simpl; auto; try congruence.
+    rewrite ordered_subst. apply Permutation_map; auto.
+  - destruct (nth_error (ins s) k) as [[c b]|]; simpl; [|split; [|split]; auto].
     destruct (subst_ok c (next s) (tree s) I) as (A & B & _). split; [|split]; simpl; auto; try congruence.
     rewrite ordered_subst. apply Permutation_map; auto.
   - split; [|split]; auto.
@@ -124,10 +130,11 @@ Proof. destruct (mrun_inv t ops) as (_ & _ & P); exact P. Qed.
    function of them and of nothing else but the id counter) unchanged *)
 Theorem C10_machine s o : snd (mstep s o) <> MOk -> tree (fst (mstep s o)) = tree s /\ ins (fst (mstep s o)) = ins s.
 Proof.
-  destruct o as [a|k|k a|]; simpl.
+  destruct o as [a|k|k a|k|]; simpl.
   - destruct (add (next s) a (tree s)); simpl; auto. intros H; exfalso; apply H; auto.
   - destruct (nth_error (ins s) k) as [[c b]|]; simpl; auto. intros H; exfalso; apply H; auto.
   - destruct (nth_error (ins s) k) as [[c b]|]; simpl; auto. destruct (Pos.eqb a b); simpl; auto. intros H; exfalso; apply H; auto.
+  - destruct (nth_error (ins s) k) as [[c b]|]; simpl; auto. intros H; exfalso; apply H; auto.
   - intros H; exfalso; apply H; auto.
 Qed.
 (* the insertion list is the obvious list semantics: adds append, removals delete that id, replacements substitute in place *)
@@ -135,13 +142,14 @@ Theorem C06_spec_list s o : ins (fst (mstep s o)) =
   match o, snd (mstep s o) with
   | MAdd a, MOk => ins s ++ [(next s, a)]
   | MRemove k, MOk => match nth_error (ins s) k with Some (c, _) => filter (keep c) (ins s) | None => ins s end
-  | MReplace k _, MOk => match nth_error (ins s) k with Some (c, _) => map (renum c (next s)) (ins s) | None => ins s end
+  | MReplace k _, MOk | MReplaceSame k, MOk => match nth_error (ins s) k with Some (c, _) => map (renum c (next s)) (ins s) | None => ins s end
   | _, _ => ins s end.
 Proof.
-  destruct o as [a|k|k a|]; simpl; auto.
+  destruct o as [a|k|k a|k|]; simpl; auto.
   - destruct (add (next s) a (tree s)); simpl; auto. destruct (has_leaf a (tree s)); auto.
   - destruct (nth_error (ins s) k) as [[c b]|]; simpl; auto.
   - destruct (nth_error (ins s) k) as [[c b]|]; simpl; auto. destruct (Pos.eqb a b); simpl; auto.
+  - destruct (nth_error (ins s) k) as [[c b]|]; simpl; auto.
 Qed.
 
 (* per-operation observables, for the correspondence with the implementation *)
